@@ -459,11 +459,11 @@ theorem C08_router_transit (fuel : Nat) (st : St) (n i : Nat) (f : Frame) (nd : 
 /-- the plain-router reading: powered on, the default ACL (ARP exempt, ICMP permitted, the service only with a rule). -/
 theorem C08_router_software_only_own_address (fuel : Nat) (st : St) (n i : Nat) (f : Frame) (nd : Node) (ifc : Iface)
     (hn : st.node? n = some nd) (hi : st.iface? n i = some ifc) (hfw : nd.fw = none) (hon : nd.on = true)
-    (hacl : ((f.pl == .dataReq || f.pl == .dataRep) && !nd.flag) = false)
+    (hacl : ((f.pl == .dataReq || f.pl == .dataRep) && !nd.flag) = false) (happ : appDenied nd.serves f.pl = false)
     (hnot : ifaceWithIp nd.ifaces f.dstIp = none) :
     routerRecv (fuel + 1) st n i f =
       routerProcess fuel (st.modNode n (fun nd => nd.addArp f.srcIp f.srcMac i)) n i f :=
-  C08_router_transit fuel st n i f nd ifc hn hi (by simp [transitOk, aclDenies, hfw, hon, hacl]) hnot
+  C08_router_transit fuel st n i f nd ifc hn hi (by simp [transitOk, aclDenies, hfw, hon, hacl, happ]) hnot
 
 /-- a router or firewall whose first verdict denies the frame's class drops it before anything else happens (no ARP
 learning, no hand-over to software, no forwarding): "exchanges that every device on the path permits" is a real
